@@ -82,6 +82,18 @@ Theorem C19_bucket_range_rpc : forall t p vmax vr, tcfg_ok t vmax vr -> forall s
 Proof. exact rpc_go_bucket. Qed.
 Print Assumptions C19_bucket_range_rpc.
 
+(* ... also across service-config updates: a new retryThrottling policy starts a fresh, full
+   bucket (tokens = new maxTokens), whatever the old bucket held - so the count is inside the
+   NEW [0, maxTokens] (clause 3 is evaluated against the new policy right after the update) *)
+Theorem C19_update_fresh_bucket : forall p t tok t' op rest, parse_op op = None -> parse_upd op = Some t' ->
+  run_from t p tok (op :: rest) =
+  match run_from t' p (tmax t') rest with Some os => Some ([to_bits (tmax t')] :: os) | None => None end.
+Proof. exact update_fresh_bucket. Qed.
+Print Assumptions C19_update_fresh_bucket.
+Theorem C19_full_bucket_in_range : forall t vmax vr, tcfg_ok t vmax vr -> in_bucket t (tmax t).
+Proof. exact max_in_bucket. Qed.
+Print Assumptions C19_full_bucket_in_range.
+
 (* "an attempt that fails with a retryable code (or with malformed pushback) removes one
    token": value max(0, fl(tokens - 1)) *)
 Theorem C19_failure_removes_one : forall tok v, FR tok v -> (0 <= v <= 1000)%R ->
@@ -122,7 +134,8 @@ Print Assumptions C19_throttled_is_half.
 (* The executable predicate evaluated on implementation traces (clauses 1-4; 5 and 6 never
    raised) holds on the model's trace, which exists, for every valid throttling policy,
    every validated retry policy that does not reach the int64 overflow (no_ovf), and every
-   sequence of RPCs with any scripts of failures (codes, pushback strings whose value fits,
+   sequence of RPCs and service-config updates (new valid throttling policies), with any
+   scripts of failures (codes, pushback strings whose value fits,
    op_wf): pushback delays are exact, computed delays are inside the float interval, the
    bucket stays in range and the outcome follows gRFC A6. *)
 Theorem C19_holds_on_every_model_trace : forall cfg t p vmax vr ops,
@@ -139,7 +152,8 @@ Print Assumptions C19_tcfg_ok_decidable.
    three UNAVAILABLE attempts retries after 80ms, 160ms, 320ms (draw 0) and then fails; the
    bucket goes 10 -> 6 and the next RPC is not retried (6 - 1 <= 5); all clauses hold *)
 Definition C19_cfg : word := [4; 100000000; 1000000000; 4611686018427387904; 4621819117588971520; 4591870180066957722].
-Definition C19_ops : list word := [[1; 4; 14; 0; 14; 0; 14; 0; 14; 0]; [1; 1; 14; 0]; [1; 1; 14; 1; 2; 50; 53]].
+Definition C19_ops : list word := [[1; 4; 14; 0; 14; 0; 14; 0; 14; 0]; [1; 1; 14; 0]; [1; 1; 14; 1; 2; 50; 53];
+  [2; 4616189618054758400; 4602678819172646912]; [1; 3; 14; 0; 14; 0; 14; 0]].
 Example C19_witness :
   match decode_cfg C19_cfg with
   | Some (t, p) => tcfg_ok_b t && policy_ok_b p && negb (ovf_delay p 0) && negb (ovf_delay p 1) &&
@@ -148,8 +162,10 @@ Example C19_witness :
   forallb op_wf C19_ops = true /\
   run C19_cfg C19_ops =
     Some [[14; 3; 80000000; 160000000; 320000000; 4618441417868443648];
-          [14; 0; 4617315517961601024]; [14; 0; 4616189618054758400]] /\
+          [14; 0; 4617315517961601024]; [14; 0; 4616189618054758400];
+          [4616189618054758400]; [14; 1; 80000000; 4611686018427387904]] /\
   holds_b C19_cfg C19_ops
     [[14; 3; 80000000; 160000000; 320000000; 4618441417868443648];
-     [14; 0; 4617315517961601024]; [14; 0; 4616189618054758400]] = true.
+     [14; 0; 4617315517961601024]; [14; 0; 4616189618054758400];
+     [4616189618054758400]; [14; 1; 80000000; 4611686018427387904]] = true.
 Proof. vm_compute. repeat split. Qed.
